@@ -45,6 +45,8 @@ def agrees(obs, exp, rel=1e-9):
     to = obs['t']
     if te == 'anyerr':
         return to == 'err'
+    if te == 'noexc':      # a value or an Excel error value - never a Python exception, NaN or infinity
+        return to in ('num', 'txt', 'bool', 'blank', 'date', 'err', 'arr') or (to == 'float' and obs['v'] not in ('nan', 'inf', '-inf'))
     if te == 'err':
         return to == 'err' and obs['v'] == exp['v']
     if te in ('num', 'date'):
